@@ -1,7 +1,7 @@
 (* Entry points of the correspondence check: one call per case record written by the
    harness.  Everything here is executable; nothing is proved in this file. *)
 From VJ Require Import Model.Str Model.Json Model.Ast Model.State Model.Util Model.Text
-  Model.Directive Model.Lower Model.Visitor Model.Types Model.Options Spec.Plain Spec.Pragma Spec.OutViews Spec.DcViews Spec.Site Spec.SiteCheck Spec.SlotFlag Spec.SlotFlagCheck Spec.Context Lemmas.NodeInd.
+  Model.Directive Model.Lower Model.Visitor Model.Types Model.Options Spec.Plain Spec.Pragma Spec.OutViews Spec.DcViews Spec.Site Spec.SiteCheck Spec.SlotFlag Spec.SlotFlagCheck Spec.Context Lemmas.NodeInd Spec.TyParse.
 From VJ Require Import Gen.Tables.
 
 Definition jfield_d (k : String.string) (j : jv) : jv :=
@@ -204,7 +204,13 @@ Definition extras (c : jv) (model_out : jv) : list (str * str) :=
     (s_ "alt_strip", b2s (if alt_ok then
                             (* main run: optimize on; alt: optimize off *)
                             jv_eqb (enc (strip_hints real)) (jfield_d "output" alt)
-                          else true)) ].
+                          else true));
+    (* C17: how many parsed prop-type annotations lie in the grammar of C17_accepts_every_inhabitant
+       (in / all / in-grammar annotations on which the theorem's conclusion fails when evaluated) *)
+    (s_ "ty_grammar", if o_resolve_type (e_opts E) then
+                        let '(a, b, bad) := grammar_cover E input in
+                        dec_of_N a ++ [47] ++ dec_of_N b ++ [47] ++ dec_of_N bad
+                      else s_ "0/0/0") ].
 
 (* the model of serde's Options deserialisation against what serde_json really did *)
 Definition regex_table (c : jv) : str -> bool :=
